@@ -7,7 +7,7 @@ CONSTANTS
   Degs <- DegsQ
   MaxNpts = 4
   Acts = {"CvKnotInsert", "CvDegreeIncrease", "CvClean"}
-  PtKinds = {"gen", "homlin"}
+  PtKinds = {"gen", "homlin", "bump"}
   WtKinds = {"none", "gen"}
   ExtraNodes <- Extra0
   NodeSize = 1
